@@ -16,6 +16,7 @@ def run(lines, out, args):
 
     class Probe:
         pass
+    watchers, journal = [], []
 
     for line in lines:
         f = line.split()
@@ -24,6 +25,8 @@ def run(lines, out, args):
             if f[0] == "reset":
                 serial += 1
                 ifs, names, descs = {0: Interface}, [], {}
+                del watchers[:]
+                del journal[:]
             elif f[0] in ("iface", "twin"):
                 twin_of = None
                 if f[0] == "twin":
@@ -54,8 +57,34 @@ def run(lines, out, args):
                 if invs or f[5] == "E":    # "E": an explicitly empty invariants list (legal; ancestors' invariants still apply)
                     I.setTaggedValue("invariants", invs)
                 ifs[int(f[1])] = I
+            elif f[0] == "watch":
+                # a dependent of the interface that, from INSIDE every change notification it receives, asks the interface
+                # (whose own resolution order is up to date by then) for every name: each answer must be the first definition
+                # along the interface's CURRENT __iro__, and the presence tests must agree with it
+                class Watcher:
+                    def __init__(self, I):
+                        self.I = I
+
+                    def changed(self, originally_changed):
+                        I = self.I
+                        for n in names:
+                            first = None
+                            for b in I.__iro__:
+                                d = b.direct(n)
+                                if d is not None:
+                                    first = d
+                                    break
+                            g = I.get(n)
+                            if g is not first or (n in I) != (first is not None) or I.queryDescriptionFor(n) is not first:
+                                journal.append("%s" % n)
+                wt = Watcher(ifs[int(f[1])])
+                watchers.append(wt)
+                ifs[int(f[1])].subscribe(wt)
             elif f[0] == "set":
                 ifs[int(f[1])].__bases__ = tuple(ifs[int(b)] for b in lst(f[2])) or (Interface,)
+                if journal:
+                    got = "ok WATCH-FAIL inside the notification get() / in / queryDescriptionFor disagreed with the current __iro__ for: " + " ".join(sorted(set(journal)))
+                    del journal[:]
             elif f[0] == "get":
                 r = ifs[int(f[1])].get(f[2])
                 got = "N" if r is None else str(descs[id(r)])
